@@ -84,9 +84,10 @@ def grid_decision(ctx, f):
     """bins.bins evaluated on every pair of the threshold grid (all places where some level's bin changes, both start
     conventions, the range limits) and compared with the scheme of the statement."""
     from ..binsmodel import bins_on_grid, spec_bins, grid_pairs
-    if "bins_grid" not in ctx.extra:
-        ctx.extra["bins_grid"] = bins_on_grid(ctx, ctx.tier)
-    grid = ctx.extra["bins_grid"]
+    cache = ctx.__dict__.setdefault("_cache", {})          # not evidence: the raw grid is megabytes
+    if "bins_grid" not in cache:
+        cache["bins_grid"] = bins_on_grid(ctx, ctx.tier)
+    grid = cache["bins_grid"]
     ctx.floor("R4", len(grid), 4000, "grid evaluations of bins.bins")
     for fmt in ("gff", "bed"):
         coord = {"gff": 1, "bed": 0}[fmt]
